@@ -66,3 +66,14 @@ Theorem C12_outstanding_bounded :
     length (p_added s) - length (pending_sends (p_subs s)) - length (ends (p_log s)) <= qcap + workers.
 Proof. exact outstanding_bounded_lemma. Qed.
 Print Assumptions C12_outstanding_bounded.
+
+(* the model log that the correspondence check compares with the implementation is the log of one
+   of the schedules the theorems above quantify over *)
+From Flyt Require Import PoolGatedIsRun.
+Theorem C12_model_log_is_a_run :
+  forall sc : pscen,
+  exists sched,
+    let w := pool_workers (ps_workers sc) in
+    model_plog sc = p_log (prun (2 * w) (pinit [ps_ops sc] w) sched).
+Proof. exact model_plog_is_a_run. Qed.
+Print Assumptions C12_model_log_is_a_run.
